@@ -24,8 +24,12 @@ RULE = ("Random: records of 60..3000 bases, linear or circular, with 2-9 genes b
         "Record.create_candidate_clusters() uses, plus through the record itself. Enumeration: one gene per three-base "
         "cell (even cells carry core genes of every product), every multiset of k protocluster shapes (core of 1-2 "
         "cells at every position x neighbourhood of 0-2 cells) on the line and on the ring, and every multiset of three "
-        "shapes used twice each with different products (three hybrid pairs); bounds in coverage.enumeration_plan / "
-        "twin_enumeration_cells. Non-trivial: >= 3 protoclusters with at least two different relations among "
+        "shapes used twice each with different products (three hybrid pairs); two hybrid pairs x one protocluster of 1-3 "
+        "cells without defining genes (form_bridge_enum); on the ring every extent across the origin x core position x "
+        "every set of 2-4 one-cell protoclusters (form_spanning_enum); bounds in coverage.enumeration_plan / "
+        "*_enumeration_cells. One random case in five comes from the forced family 'hybrid pairs in a row + bridging "
+        "protoclusters (+ a hybrid pair covering two of them)', one in five from 'origin-spanning protocluster + small "
+        "disjoint protoclusters before/after the origin + some elsewhere'. Non-trivial: >= 3 protoclusters with at least two different relations among "
         "share-a-defining-gene / cores overlap / extents overlap, or a relation through an origin-spanning core or "
         "extent, or two related protoclusters with identical coordinates, or a same-coordinates promotion; distinct = "
         "sha1 of the spec (enumerated cases are distinct by construction).")
@@ -183,6 +187,10 @@ class Reference:
             if len(comp) >= 4:
                 self.labels.add(f"{name}_component_of_4_or_more_units")
         candidates = [unit for unit in units if unit[0] == "cand"]
+        for unit in candidates:
+            linked = [other for other in candidates if other != unit and related(unit, other)]
+            if any(not related(one, two) for one, two in itertools.combinations(linked, 2)):
+                self.labels.add(f"{name}_candidate_bridges_unrelated_candidates")
         for unit in units:
             if unit[0] != "proto":
                 continue
@@ -605,9 +613,12 @@ def _rotated(start: int, size: int, offset: int, length: int, circular: bool) ->
 def bridge_specs(draw):
     """ forced family: 2-3 chemical-hybrid pairs in a row whose cores do not overlap each other, and between
         neighbouring pairs a protocluster without defining genes reaching -1/0/1/2/5 bases into either side
-        (core, or only the neighbourhood); on a ring the whole layout is rotated so that it may lie across the origin """
+        (core, or only the neighbourhood); one time in three a further hybrid pair whose core starts at or before
+        one pair and reaches into the next (a candidate related to two candidates that are unrelated to each other);
+        on a ring the whole layout is rotated so that it may lie across the origin """
     circular = draw(st.booleans())
-    hybrids = draw(st.sampled_from([2, 2, 3]))
+    hybrids = draw(st.sampled_from([2, 2, 3, 3]))
+    cover = draw(st.integers(0, 2)) == 0
     items: list = []     # (core start, core size, left, right, product, gene index or None)
     genes_at: list = []
     cursor = draw(st.integers(0, 40))
@@ -623,8 +634,16 @@ def bridge_specs(draw):
         items.append((cursor + shift, second, draw(hood), draw(hood), f"h{number}b"))
         starts.append(cursor)
         ends.append(max(cursor + width, cursor + shift + second))
-        cursor = ends[-1] + draw(st.sampled_from([1, 2, 3, 10, 30, 60]))
+        cursor = ends[-1] + draw(st.sampled_from([3, 5, 10, 30, 60] if cover else [1, 2, 3, 10, 30, 60]))
     reach = st.sampled_from([-1, 0, 1, 1, 2, 5])
+    if cover:
+        first = draw(st.integers(0, hybrids - 2))
+        lo = max(0, starts[first] - draw(st.sampled_from([0, 1, 5])))
+        hi = starts[first + 1] + draw(st.sampled_from([1, 2, 5]))
+        genes_at.append((ends[first], ("cova", "covb")))      # the gap after the pair is at least 3 bases wide
+        wide = draw(st.sampled_from([0, 0, 5, 20]))
+        items.append((lo, hi - lo, wide, draw(hood), "cova"))
+        items.append((ends[first], 3, draw(hood), draw(hood), "covb"))
     for number in range(hybrids - 1):
         for _ in range(draw(st.sampled_from([1, 1, 2]))):
             lo = ends[number] - draw(reach)
